@@ -4,7 +4,7 @@ import hashlib, json, os, re, shutil, subprocess, sys, time, glob, random
 
 ROOT = os.path.dirname(os.path.dirname(os.path.abspath(__file__)))
 REPO = os.environ.get("VERIF_REPO", "/repo")
-BUILD = os.path.join(ROOT, "build")
+BUILD = os.environ.get("VERIF_BUILD", os.path.join(ROOT, "build"))
 COQ = os.path.join(ROOT, "coq")
 NPROC = int(os.environ.get("VERIF_JOBS", "16"))
 GUARD = "COLVARS_VERIF"
@@ -414,7 +414,10 @@ class Run:
         mm = getattr(self, "mismatches", {})
         self.cov["correspondence"]["mismatching_components"] = {k: len(v) for k, v in mm.items()}
         for comp, lst in mm.items():
-            if not any(sig.startswith(comp) or comp in sig for (sig, _, _, f) in self.violations if f):
+            toks = set(t for t in comp.split(":") if t not in ("tie", "unit", "value", "oracle", "impl", "model"))
+            def related(sig):
+                return sig.startswith(comp) or comp in sig or bool(toks & set(sig.split(":")))
+            if not any(related(sig) for (sig, _, _, f) in self.violations if f):
                 if (self.pid, "tie:" + comp) in self.known:
                     self.violation("tie:" + comp, "", {})
                     continue
